@@ -20,7 +20,7 @@ ASSUMPTIONS = ["score(X) is compared with the naive reference GEMINI of predict_
                "for ints) are not generated"]
 EVAL_COUNTER = "fits"
 REQUIRED = {"quick": dict({"fits": 500, "contracts_complete": 450, "score_vs_reference": 150, "list_input": 40,
-                           "int_input": 40, "k_equals_one": 15, "k_equals_n": 10, "douglas_long_fits": 50, "score_after_inplace_refresh_checked": 40,
+                           "int_input": 40, "float32_input": 40, "fortran_input": 40, "strided_input": 40, "k_equals_one": 15, "k_equals_n": 10, "douglas_long_fits": 50, "score_after_inplace_refresh_checked": 40,
                            "douglas_long_cut_points_out_of_order": 8},
                           **{"fit:" + e: 12 for e in gen.ESTIMATORS}),
             "thorough": dict({"fits": 10000, "contracts_complete": 9000}, **{"fit:" + e: 300 for e in gen.ESTIMATORS})}
@@ -123,8 +123,21 @@ def run_case(case, ctx, st):
             n = params["min_samples_leaf"] + int(rng.integers(0, 5))
             X = gen.make_data(rng, n, d, kind)
     y = gen.precomputed_for(rng, pre, n)
-    form = ["float", "float", "int", "list"][int(rng.integers(0, 4))]
+    form = ["float", "float", "int", "list", "float32", "fortran", "strided"][int(rng.integers(0, 7))]
     Xin = X
+    if form == "float32":
+        # single-precision training data (what most loaders and every GPU pipeline hand over): exactly representable in
+        # double precision, so the reference works on the very same numbers
+        Xin = X.astype(np.float32)
+        X = Xin.astype(np.float64)
+    elif form == "fortran":
+        Xin = np.asfortranarray(X)
+    elif form == "strided":
+        big = np.empty((2 * n, d + 1))
+        big[::2, :d] = X
+        big[1::2] = 1e300
+        big[:, d] = -1e300
+        Xin = big[::2, :d]
     if form == "int":
         X = np.round(X * 3)
         Xin = X.astype(np.int64)
@@ -140,6 +153,8 @@ def run_case(case, ctx, st):
         ctx.count("list_input")
     if form == "int":
         ctx.count("int_input")
+    if form in ("float32", "fortran", "strided"):
+        ctx.count(form + "_input")
     if K == 1:
         ctx.count("k_equals_one")
     if K == n:
@@ -157,6 +172,24 @@ def run_case(case, ctx, st):
     def need(cond, what, obs=None):
         if not cond:
             bad.append((what, obs))
+
+    def slack32(dist_, ovo_, P_, A_, val_):
+        """score(X) given single-precision data: scikit-learn evaluates the kernel / metric in single precision, so the
+        affinity (hence the score) carries float32 round-off - relative 1e-5 of the affinity's magnitude, amplified by the
+        square root for a near-zero MMD.  Zero for every other input form."""
+        if form != "float32" or A_ is None:
+            return 0.0
+        A_ = np.asarray(A_, dtype=float)
+        t = 1e-5 * max(1.0, abs(val_), float(np.max(np.abs(A_))) if A_.size else 0.0)
+        if dist_ == "mmd":
+            from . import _gem
+
+            class _G32:
+                pass
+            g32 = _G32()
+            g32.ovo = ovo_
+            t += _gem.mmd_tolerance(g32, P_, A_, rel=1e-5)
+        return t
 
     try:
         need(out is est, "fit-returns-self")
@@ -217,7 +250,7 @@ def run_case(case, ctx, st):
                         g_.ovo = ovo
                         tol += _gem.mmd_tolerance(g_, P, np.asarray(A, dtype=float))
                     ctx.count("score_vs_reference")
-                    need(abs(sc - ref) <= tol, "score-differs-from-reference-gemini", {"score": sc, "reference": ref})
+                    need(abs(sc - ref) <= tol + slack32(dist, ovo, P, A, ref), "score-differs-from-reference-gemini", {"score": sc, "reference": ref})
                 else:
                     import gemclus.gemini as gg
                     cls = {"kl": gg.KLGEMINI, "tv": gg.TVGEMINI, "hellinger": gg.HellingerGEMINI,
@@ -231,7 +264,7 @@ def run_case(case, ctx, st):
                     if not (dist == "tv" and ovo and K == 1):
                         val = float(np.asarray(obj(P, A)).reshape(-1)[0])
                         ctx.count("score_vs_documented_class")
-                        need(abs(sc - val) <= 1e-9 * max(1.0, abs(val)), "score-differs-from-documented-gemini",
+                        need(abs(sc - val) <= 1e-9 * max(1.0, abs(val)) + slack32(dist, ovo, P, A, val), "score-differs-from-documented-gemini",
                              {"score": sc, "expected": val})
             fp = gen.build_estimator(name, params).fit_predict(Xin, y)
             need(np.array_equal(np.asarray(fp), labels), "fit_predict-differs-from-fit", {"fit_predict": fp, "labels_": labels})
